@@ -44,6 +44,7 @@ DEFAULT_PROFILE = dict(
     allow_last_period_crash=True,
     sessions_cap=16,
     stoch_early=0.5,
+    reconfig=0.0,                 # probability that the operator changes constraint limits mid-run (environment fault)
 )
 
 
@@ -274,7 +275,29 @@ def gen_world(rs: int, P: dict) -> dict:
                                   "choice": sub(rs, "tapes2").choice(P["tapes_choice"])},
           "seed": rs}
     sc["faults"] = gen_faults(rs, sc, P)
+    rr2 = sub(rs, "reconfig")
+    if cons and P.get("reconfig", 0) and rr2.random() < P["reconfig"] and last >= 1:
+        rc = []
+        for _ in range(rr2.randint(1, 2)):
+            k = rr2.choice(cons)
+            rc.append({"t": rr2.randint(1, last), "name": k["name"],
+                       "limit": max(1.0, round(k["limit"] * rr2.choice([0.4, 0.6, 0.8, 1.25, 1.6, 2.5]), 1))})
+        sc["reconfig"] = sorted(rc, key=lambda x: x["t"])
     return sc
+
+
+def constraints_at(sc, t):
+    """Constraint list (network order) in force during period t: every reconfiguration with r.t <= t has been applied
+    in order; ChargingNetwork.update_constraint removes the row and appends the updated one at the end."""
+    cons = [dict(c) for c in sc["network"]["constraints"]]
+    for r in sc.get("reconfig", []):
+        if r["t"] <= t:
+            for i, c in enumerate(cons):
+                if c["name"] == r["name"]:
+                    c = dict(cons.pop(i), limit=r["limit"])
+                    cons.append(c)
+                    break
+    return cons
 
 
 def _mk_session(rs, sid, station, a, d, stations, period, P):
